@@ -26,7 +26,9 @@
 (* Names are label sequences written TOP-DOWN from the zone apex:          *)
 (* <<>> is the apex, <<"a","b">> is b.a.<zone>.                            *)
 (***************************************************************************)
-EXTENDS Naturals, Sequences, FiniteSets, TLC, Json, SequencesExt
+EXTENDS Naturals, Sequences, FiniteSets, TLC, Json
+SX == INSTANCE SequencesExt
+SetToSeq(S) == SX!SetToSeq(S)
 
 CONSTANTS
   Zones,      \* subset of DOMAIN ZoneLib explored by this configuration
@@ -40,12 +42,12 @@ CONSTANTS
   MaxClock, MaxAdmits, AdmitSub,
   EmitCases   \* TRUE: print zones / cases as JSON for the conformance driver
 
-VARIABLES zid, fam, phase, sub, q,                 \* part 1
+VARIABLES zid, fam, phase, sub, q, vs, ag,         \* part 1 (vs/ag: what the rules conclude for sub, q)
           idx, soaExp, cuts, clock, nadm, turn,    \* part 2: the code-shaped state
           last, synth                              \* ghost: last call and what it returned
 
-vars == <<zid, fam, phase, sub, q, idx, soaExp, cuts, clock, nadm, turn, last, synth>>
-View == <<zid, fam, phase, sub, q, idx, soaExp, cuts, clock, nadm, turn>>
+vars == <<zid, fam, phase, sub, q, vs, ag, idx, soaExp, cuts, clock, nadm, turn, last, synth>>
+View == <<zid, fam, phase, sub, q, vs, ag, idx, soaExp, cuts, clock, nadm, turn>>
 
 Types == {"A", "NS", "DS", "SOA", "CNAME", "DNAME"}
 Lab   == {"a", "b"}
@@ -152,6 +154,9 @@ Truth(z, qq) ==
        THEN (IF t \in T(z, w) \/ "CNAME" \in T(z, w) THEN "wildcard-answer" ELSE "wildcard-nodata")
        ELSE "nxdomain"
 
+TruthTab == [z \in Zones |-> [qq \in Queries |-> Truth(z, qq)]]
+TruthOf(z, qq) == TruthTab[z][qq]
+
 -----------------------------------------------------------------------------
 (* Denial records.  One record shape for both families so that sets mix.   *)
 Rec(f, s, o, nx, ty, oo, p, hh, nn) ==
@@ -172,7 +177,9 @@ Code(n) == IF n = <<>> THEN 0 ELSE Digit(Head(n)) + 4 * Code(Tail(n))
 HK(p) == CASE p = 1 -> 5 [] p = 2 -> 23 [] p = 3 -> 41
 HC(p) == CASE p = 1 -> 3 [] p = 2 -> 11 [] p = 3 -> 29
 H(p, n)  == ((Code(n) + 1) * HK(p) + HC(p)) % 89
-HH(p, n) == IF Collide # <<>> /\ n = Collide[1] THEN H(p, Collide[2]) ELSE H(p, n)
+HTab     == [p \in 1..3 |-> [n \in AllNames |->
+               IF Collide # <<>> /\ n = Collide[1] THEN H(p, Collide[2]) ELSE H(p, n)]]
+HH(p, n) == HTab[p][n]
 Par1 == HashSel
 Par2 == HashSel + 1
 
@@ -187,7 +194,10 @@ Nsec3Ring(z, p)   == { Nsec3Rec(z, p, o) : o \in Ring3(z) }
 RingInjective(z)  == \A x, y \in Ring3(z) : x # y => HH(Par1, x) # HH(Par1, y) /\ HH(Par2, x) # HH(Par2, y)
 ASSUME \A z \in Zones : RingInjective(z)
 
-Genuine(z, f) == IF f = "nsec" THEN NsecChain(z) ELSE Nsec3Ring(z, Par1)
+GenTab  == [z \in Zones |-> [f \in {"nsec", "nsec3"} |->
+               IF f = "nsec" THEN NsecChain(z) ELSE Nsec3Ring(z, Par1)]]
+Genuine(z, f) == GenTab[z][f]
+RingTab == [z \in Zones |-> Ring3(z)]
 
 \* ---- pollution: one foreign record.  Its content is irrelevant to the sound
 \* rules (they never look at it); the conformance driver gives it a concrete,
@@ -210,6 +220,7 @@ SubsetsUpTo(S, k) ==
 (* that rests on an Opt-Out span (insecure: no AD, no shared state).        *)
 Deleg(r) == "NS" \in r.types /\ "SOA" \notin r.types
 Vd(v, s) == [v |-> v, sec |-> s]
+Opt(c, x) == IF c THEN {x} ELSE {}
 
 \* signer binding (RFC 4035 5.3.1 + FilterRRsToZone): only the signer zone's own records count
 Usable(S) == { r \in S : r.src = "self" }
@@ -229,22 +240,20 @@ TypeAbsent(r, t) == t \notin r.types /\ "CNAME" \notin r.types
 
 NsecVerdicts(U, qq) ==
   LET n == qq.name  t == qq.type IN
-     { Vd("nxdomain", TRUE) : x \in { y \in {1} :
-          n # <<>> /\ \E r1 \in Absent(U, n) : Absent(U, Wild(CEof(r1, n))) # {} } }
-  \cup { Vd("nodata", TRUE) : x \in { y \in {1} :
-          \/ \E r \in U : r.owner = n /\ TypeAbsent(r, t) /\ ~Deleg(r)
-          \/ IsENT(U, n) } }
-  \cup { Vd("wildcard-nodata", TRUE) : x \in { y \in {1} :
-          n # <<>> /\ \E r1 \in Absent(U, n) : \E r2 \in U :
-             /\ r2.owner = Wild(CEof(r1, n)) /\ TypeAbsent(r2, t)
-             /\ ~Deleg(r2) /\ "DNAME" \notin r2.types } }
-  \cup { Vd("insecure-delegation", TRUE) : x \in { y \in {1} :
-          t = "DS" /\ \E r \in U : r.owner = n /\ Deleg(r) /\ "DS" \notin r.types } }
+       Opt(n # <<>> /\ \E r1 \in Absent(U, n) : Absent(U, Wild(CEof(r1, n))) # {},
+           Vd("nxdomain", TRUE))
+  \cup Opt((\E r \in U : r.owner = n /\ TypeAbsent(r, t) /\ ~Deleg(r)) \/ IsENT(U, n),
+           Vd("nodata", TRUE))
+  \cup Opt(n # <<>> /\ \E r1 \in Absent(U, n) : \E r2 \in U :
+               /\ r2.owner = Wild(CEof(r1, n)) /\ TypeAbsent(r2, t)
+               /\ ~Deleg(r2) /\ "DNAME" \notin r2.types,
+           Vd("wildcard-nodata", TRUE))
+  \cup Opt(t = "DS" /\ \E r \in U : r.owner = n /\ Deleg(r) /\ "DS" \notin r.types,
+           Vd("insecure-delegation", TRUE))
 
 \* ---- NSEC3 (RFC 5155 8.3-8.9, RFC 9276): one parameter tuple, one zone
 InName(S)    == { r \in S : r.src # "sibling" }            \* survives the name filter
 Refused3(S)  == (\E r \in InName(S) : r.src = "child") \/ Cardinality({ r.par : r \in InName(S) }) > 1
-ParOf(U)     == (CHOOSE r \in U : TRUE).par
 M(U, n)      == { r \in U : r.h = HH(r.par, n) }
 Cov(U, n)    == { r \in U : LET hn == HH(r.par, n) IN
                     /\ r.h # hn
@@ -261,17 +270,16 @@ Nsec3Verdicts(S, qq) ==
   LET n == qq.name  t == qq.type  U == Usable(S) IN
   IF Refused3(S) \/ U = {} THEN {}
   ELSE
-     { Vd("nxdomain", NcSecure(U, n, k)) :
-          k \in { j \in CEPs(U, n) : Cov(U, Wild(Prefix(n, j))) # {} } }
-  \cup { Vd("nodata", TRUE) : x \in { y \in {1} :
-          \E r \in M(U, n) : TypeAbsent(r, t) /\ ~Deleg(r) } }
+       { Vd("nxdomain", NcSecure(U, n, k)) :
+            k \in { j \in CEPs(U, n) : Cov(U, Wild(Prefix(n, j))) # {} } }
+  \cup Opt(\E r \in M(U, n) : TypeAbsent(r, t) /\ ~Deleg(r), Vd("nodata", TRUE))
   \cup { Vd("wildcard-nodata", NcSecure(U, n, k)) :
-          k \in { j \in CEPs(U, n) : M(U, n) = {} /\ \E r \in M(U, Wild(Prefix(n, j))) :
-                      TypeAbsent(r, t) /\ ~Deleg(r) /\ "DNAME" \notin r.types } }
-  \cup { Vd("insecure-delegation", TRUE) : x \in { y \in {1} :
-          t = "DS" /\ \E r \in M(U, n) : Deleg(r) /\ "DS" \notin r.types } }
+            k \in { j \in CEPs(U, n) : M(U, n) = {} /\ \E r \in M(U, Wild(Prefix(n, j))) :
+                        TypeAbsent(r, t) /\ ~Deleg(r) /\ "DNAME" \notin r.types } }
+  \cup Opt(t = "DS" /\ \E r \in M(U, n) : Deleg(r) /\ "DS" \notin r.types,
+           Vd("insecure-delegation", TRUE))
   \cup { Vd("optout-unsigned", FALSE) :          \* RFC 5155 8.6: no DS, or not signed at all
-          k \in { j \in CEPs(U, n) : t = "DS" /\ M(U, n) = {} /\ ~NcSecure(U, n, j) } }
+            k \in { j \in CEPs(U, n) : t = "DS" /\ M(U, n) = {} /\ ~NcSecure(U, n, j) } }
 
 Verdicts(f, S, qq) == IF f = "nsec" THEN NsecVerdicts(Usable(S), qq) ELSE Nsec3Verdicts(S, qq)
 
@@ -279,57 +287,66 @@ Verdicts(f, S, qq) == IF f = "nsec" THEN NsecVerdicts(Usable(S), qq) ELSE Nsec3V
 \* already refuse ENT / delegation / DNAME ambiguity); NSEC3: additionally no
 \* Opt-Out record anywhere in the proof.
 AggVerdicts(f, S, qq) ==
-  IF f = "nsec" THEN { vd.v : vd \in NsecVerdicts(Usable(S), qq) } \ {"insecure-delegation"}
+  IF f = "nsec" THEN { vd.v : vd \in NsecVerdicts(Usable(S), qq) }
   ELSE LET n == qq.name  t == qq.type  U == Usable(S) IN
        IF Refused3(S) \/ U = {} THEN {}
        ELSE
-          { "nxdomain" : k \in { j \in CEPs(U, n) :
-                NcSecure(U, n, j) /\ \E r \in Cov(U, Wild(Prefix(n, j))) : ~r.oo } }
-       \cup { "nodata" : x \in { y \in {1} : \E r \in M(U, n) : TypeAbsent(r, t) /\ ~Deleg(r) } }
+            { "nxdomain" : k \in { j \in CEPs(U, n) :
+                  NcSecure(U, n, j) /\ \E r \in Cov(U, Wild(Prefix(n, j))) : ~r.oo } }
+       \cup Opt(\E r \in M(U, n) : TypeAbsent(r, t) /\ ~Deleg(r), "nodata")
+       \cup Opt(t = "DS" /\ \E r \in M(U, n) : Deleg(r) /\ "DS" \notin r.types, "insecure-delegation")
        \cup { "wildcard-nodata" : k \in { j \in CEPs(U, n) :
-                NcSecure(U, n, j) /\ M(U, n) = {} /\ t # "DS" /\ \E r \in M(U, Wild(Prefix(n, j))) :
-                   TypeAbsent(r, t) /\ ~Deleg(r) /\ "DNAME" \notin r.types } }
+                  NcSecure(U, n, j) /\ M(U, n) = {} /\ t # "DS" /\ \E r \in M(U, Wild(Prefix(n, j))) :
+                     TypeAbsent(r, t) /\ ~Deleg(r) /\ "DNAME" \notin r.types } }
 
 -----------------------------------------------------------------------------
 (* Soundness predicates (part 1) *)
 \* a name with no signed presence: at or below an opted-out delegation, or an
 \* empty non-terminal that exists only for opted-out delegations
-Unsigned(z, n) == Z(z).optout /\ \E k \in 1..Len(n) : Prefix(n, k) \notin Ring3(z)
+Unsigned(z, n) == Z(z).optout /\ \E k \in 1..Len(n) : Prefix(n, k) \notin RingTab[z]
 Collides(n)    == Collide # <<>> /\ \E k \in 0..Len(n) :
                      Prefix(n, k) = Collide[1] \/ Wild(Prefix(n, k)) = Collide[1]
 
 VerdictTrue(z, qq, vd) ==
-  LET tr == Truth(z, qq) IN
+  LET tr == TruthOf(z, qq) IN
   IF vd.sec THEN tr = vd.v
   ELSE \/ tr = vd.v
        \/ Unsigned(z, qq.name)
-       \/ (vd.v = "optout-unsigned" /\ qq.name \notin Ring3(z))
+       \/ (vd.v = "optout-unsigned" /\ qq.name \notin RingTab[z])
 
+\* every accepted denial is the zone's truth (an Opt-Out based one may only
+\* concern a name with no signed presence)
 Sound ==
-  phase = "asked" =>
-    \A vd \in Verdicts(fam, sub, q) : VerdictTrue(zid, q, vd) \/ Collides(q.name)
+  phase = "asked" => \A vd \in vs : VerdictTrue(zid, q, vd) \/ Collides(q.name)
+
+\* negative control for the forced-collision configuration: WITHOUT the exemption
+\* the collision must break soundness (else the configuration exercises nothing)
+SoundNoExemption ==
+  phase = "asked" => \A vd \in vs : VerdictTrue(zid, q, vd)
 
 AggressiveSound ==
-  phase = "asked" =>
-    \A v \in AggVerdicts(fam, sub, q) : Truth(zid, q) = v \/ Collides(q.name)
+  phase = "asked" => \A v \in ag : TruthOf(zid, q) = v \/ Collides(q.name)
 
-\* the shared-state classifier never rests on an Opt-Out record and never says
-\* more than the exact verifier
+\* the shared-state classifier never says more than the exact verifier's
+\* secure verdicts, hence never rests on an Opt-Out next-closer cover
 AggressiveNeverOptOut ==
-  phase = "asked" =>
-    \A v \in AggVerdicts(fam, sub, q) : Vd(v, TRUE) \in Verdicts(fam, sub, q)
+  phase = "asked" => \A v \in ag : Vd(v, TRUE) \in vs
+
+OptOutNeverSecure ==
+  phase = "asked" /\ fam = "nsec3" /\ Z(zid).optout =>
+    /\ \A vd \in vs : vd.v \in {"nxdomain", "wildcard-nodata", "optout-unsigned"} => ~vd.sec
+    /\ ag \subseteq {"nodata", "insecure-delegation"}
 
 MixedRefused ==
-  phase = "asked" /\ fam = "nsec3" /\ Refused3(sub) =>
-    Verdicts(fam, sub, q) = {} /\ AggVerdicts(fam, sub, q) = {}
+  phase = "asked" /\ fam = "nsec3" /\ Refused3(sub) => vs = {} /\ ag = {}
 
 \* completeness sanity (vacuity guard of the model itself): the full genuine
 \* chain proves every negative truth, except what only Opt-Out can say
 FullChainProves ==
   phase = "asked" /\ sub = Genuine(zid, fam) /\ ~Collides(q.name) =>
-    LET tr == Truth(zid, q) IN
+    LET tr == TruthOf(zid, q) IN
     tr \in {"nxdomain", "nodata", "wildcard-nodata", "insecure-delegation"} =>
-       \/ \E vd \in Verdicts(fam, sub, q) : vd.v = tr
+       \/ \E vd \in vs : vd.v = tr
        \/ (fam = "nsec3" /\ Z(zid).optout)
 
 -----------------------------------------------------------------------------
@@ -344,7 +361,7 @@ LiveCuts   == { n \in DOMAIN cuts : cuts[n] > clock }
 \* secure, the RFC 8198 classifier reaches the same rcode, NXDOMAIN/NODATA only
 Rcode(v) == IF v = "nxdomain" THEN "NX" ELSE "ND"
 GateAdmits(S, qq) ==
-  { v \in {"nxdomain", "nodata", "wildcard-nodata"} :
+  { v \in {"nxdomain", "nodata", "wildcard-nodata", "insecure-delegation"} :
        /\ Vd(v, TRUE) \in Verdicts(fam, S, qq)
        /\ \E a \in AggVerdicts(fam, S, qq) : Rcode(a) = Rcode(v) }
 
@@ -357,7 +374,7 @@ TurnSet == {"admit", "expire", "synth"}
 
 Init ==
   /\ zid \in Zones /\ fam \in Families
-  /\ phase = "zone" /\ sub = {} /\ q = [name |-> <<>>, type |-> "A"]
+  /\ phase = "zone" /\ sub = {} /\ q = [name |-> <<>>, type |-> "A"] /\ vs = {} /\ ag = {}
   /\ idx = <<>> /\ soaExp = 0 /\ cuts = <<>> /\ clock = 0 /\ nadm = 0
   /\ turn \in (IF Part = "cache" THEN TurnSet ELSE {"admit"})
   /\ last = NoCall /\ synth = {}
@@ -367,11 +384,12 @@ CacheUnchanged == UNCHANGED <<idx, soaExp, cuts, clock, nadm, turn, last, synth>
 PickSubset(G, P) ==
   /\ Part = "sound" /\ phase = "zone"
   /\ sub' = G \cup P /\ phase' = "picked"
-  /\ UNCHANGED <<zid, fam, q>> /\ CacheUnchanged
+  /\ UNCHANGED <<zid, fam, q, vs, ag>> /\ CacheUnchanged
 
 Query(qq) ==
   /\ Part = "sound" /\ phase = "picked"
   /\ q' = qq /\ phase' = "asked"
+  /\ vs' = Verdicts(fam, sub, qq) /\ ag' = AggVerdicts(fam, sub, qq)
   /\ UNCHANGED <<zid, fam, sub>> /\ CacheUnchanged
 
 Admit(G, qq, L) ==
@@ -385,34 +403,38 @@ Admit(G, qq, L) ==
                   ELSE cuts
        /\ last' = [op |-> "admit", g |-> G, q |-> qq, ttl |-> L, v |-> v]
   /\ nadm' = nadm + 1 /\ synth' = {} /\ turn' \in TurnSet
-  /\ UNCHANGED <<zid, fam, phase, sub, q, clock>>
+  /\ UNCHANGED <<zid, fam, phase, sub, q, vs, ag, clock>>
 
 Expire ==
   /\ Part = "cache" /\ turn = "expire" /\ clock < MaxClock
   /\ clock' = clock + 1
   /\ last' = [op |-> "expire"] /\ synth' = {} /\ turn' \in TurnSet
-  /\ UNCHANGED <<zid, fam, phase, sub, q, idx, soaExp, cuts, nadm>>
+  /\ UNCHANGED <<zid, fam, phase, sub, q, vs, ag, idx, soaExp, cuts, nadm>>
 
 Synthesise(qq) ==
   /\ Part = "cache" /\ turn = "synth"
   /\ synth' = SynthOf(idx, soaExp, cuts, clock, qq)
   /\ last' = [op |-> "synth", q |-> qq]
   /\ turn' \in TurnSet
-  /\ UNCHANGED <<zid, fam, phase, sub, q, idx, soaExp, cuts, clock, nadm>>
+  /\ UNCHANGED <<zid, fam, phase, sub, q, vs, ag, idx, soaExp, cuts, clock, nadm>>
 
 Next ==
-  \/ \E G \in SubsetsUpTo(Genuine(zid, fam), MaxSub) :
-       \E P \in {{}} \cup { {p} : p \in PolPool(zid, fam) } : PickSubset(G, P)
-  \/ \E qq \in Queries : Query(qq)
-  \/ \E G \in (SubsetsUpTo(GenuineSet, AdmitSub) \ {{}}), qq \in Queries, L \in {1, 2} : Admit(G, qq, L)
+  \/ /\ Part = "sound" /\ phase = "zone"
+     /\ \E G \in SubsetsUpTo(Genuine(zid, fam), MaxSub) :
+          \E P \in {{}} \cup { {p} : p \in PolPool(zid, fam) } : PickSubset(G, P)
+  \/ /\ Part = "sound" /\ phase = "picked"
+     /\ \E qq \in Queries : Query(qq)
+  \/ /\ Part = "cache" /\ turn = "admit" /\ nadm < MaxAdmits
+     /\ \E G \in (SubsetsUpTo(GenuineSet, AdmitSub) \ {{}}), qq \in Queries, L \in {1, 2} : Admit(G, qq, L)
   \/ Expire
-  \/ \E qq \in Queries : Synthesise(qq)
+  \/ /\ Part = "cache" /\ turn = "synth"
+     /\ \E qq \in Queries : Synthesise(qq)
 
 Spec == Init /\ [][Next]_vars
 
 \* whatever the caches synthesise is the zone's truth (synth/last are hidden by
 \* the VIEW, so this is an action property)
-SynthTrue(qq, out) == Cardinality(out) <= 1 /\ \A v \in out : Truth(zid, qq) = v
+SynthTrue(qq, out) == Cardinality(out) <= 1 /\ \A v \in out : TruthOf(zid, qq) = v
 SynthesisedIsTrue == [][last'.op = "synth" => SynthTrue(last'.q, synth')]_vars
 \* nothing is synthesised from a zone whose SOA entry has expired, nor from expired records
 NoStaleSynthesis ==
@@ -431,25 +453,31 @@ TypeOK ==
 NameStr(n) == n
 RecOut(r)  == [o |-> r.owner, s |-> r.src, p |-> r.par, nx |-> r.next, h |-> r.h, nh |-> r.nh,
                t |-> SetToSeq(r.types), oo |-> r.oo]
-VerdictOut(vd) == <<vd.v, IF vd.sec THEN 1 ELSE 0>>
 ZoneOut ==
   [k |-> "zone", z |-> zid, f |-> fam, optout |-> Z(zid).optout,
    owners |-> [i \in 1..Len(SetToSeq(Owners(zid))) |->
                  LET o == SetToSeq(Owners(zid))[i] IN [n |-> o, t |-> SetToSeq(T(zid, o))]],
    chain  |-> [i \in 1..Len(SetToSeq(Genuine(zid, fam))) |-> RecOut(SetToSeq(Genuine(zid, fam))[i])],
-   ring   |-> SetToSeq(Ring3(zid)),
+   ring   |-> SetToSeq(RingTab[zid]),
    qs     |-> [i \in 1..Len(QSeq) |-> [n |-> QSeq[i].name, t |-> QSeq[i].type]],
-   truth  |-> [i \in 1..Len(QSeq) |-> Truth(zid, QSeq[i])],
+   truth  |-> [i \in 1..Len(QSeq) |-> TruthOf(zid, QSeq[i])],
    ce     |-> [i \in 1..Len(QSeq) |-> CE(zid, QSeq[i].name)]]
+VCode(v) == CASE v = "nxdomain" -> "nx" [] v = "nodata" -> "nd" [] v = "wildcard-nodata" -> "wn"
+                 [] v = "insecure-delegation" -> "id" [] v = "optout-unsigned" -> "ou"
+VerdictCodes(qq) ==
+  LET vq == SetToSeq(Verdicts(fam, sub, qq))  aq == SetToSeq(AggVerdicts(fam, sub, qq))
+  IN  [v |-> [j \in 1..Len(vq) |-> <<VCode(vq[j].v), IF vq[j].sec THEN 1 ELSE 0>>],
+       a |-> [j \in 1..Len(aq) |-> VCode(aq[j])]]
 CaseOut ==
-  [k |-> "case", z |-> zid, f |-> fam,
-   g |-> [i \in 1..Len(SetToSeq(Usable(sub))) |-> SetToSeq(Usable(sub))[i].owner],
-   gp |-> [i \in 1..Len(SetToSeq(Usable(sub))) |-> SetToSeq(Usable(sub))[i].par],
-   p |-> [i \in 1..Len(SetToSeq(sub \ Usable(sub))) |->
-             LET r == SetToSeq(sub \ Usable(sub))[i] IN [s |-> r.src, o |-> r.owner]],
-   acc |-> [i \in 1..Len(QSeq) |-> [j \in 1..Len(SetToSeq(Verdicts(fam, sub, QSeq[i]))) |->
-                                       VerdictOut(SetToSeq(Verdicts(fam, sub, QSeq[i]))[j])]],
-   agg |-> [i \in 1..Len(QSeq) |-> SetToSeq(AggVerdicts(fam, sub, QSeq[i]))]]
+  LET us == SetToSeq(Usable(sub))
+      fs == SetToSeq(sub \ Usable(sub))
+      hit == SelectSeq([i \in 1..Len(QSeq) |-> i],
+                       LAMBDA i : Verdicts(fam, sub, QSeq[i]) # {} \/ AggVerdicts(fam, sub, QSeq[i]) # {})
+  IN  [k |-> "case", z |-> zid, f |-> fam,
+       g  |-> [i \in 1..Len(us) |-> us[i].owner],
+       gp |-> [i \in 1..Len(us) |-> us[i].par],
+       p  |-> [i \in 1..Len(fs) |-> [s |-> fs[i].src, o |-> fs[i].owner]],
+       acc |-> [j \in 1..Len(hit) |-> [i |-> hit[j], r |-> VerdictCodes(QSeq[hit[j]])]]]
 
 EmitZone == (EmitCases /\ phase = "zone") => PrintT(ToJson(ZoneOut))
 EmitCase == (EmitCases /\ phase = "picked") => PrintT(ToJson(CaseOut))
